@@ -8,7 +8,7 @@ from ..genutil import int_in
 INFO = dict(
     bounds=dict(quick="temporal / interior / border batch sizes in 1..3 (stores <= 4), d in {1,2}, both product modes, constructor state and an arbitrary valid state (symbolic batch indices, arbitrary permutations)",
                 thorough="batch sizes 1..3 with stores up to 6, d in {1,2}, both modes, both states"),
-    outside=["batch sizes above 3", "the threefry stream (contracts of jax.random.* as in C08/C09)"],
+    outside=["generator batch sizes above 3 (the product routine alone: second operand up to 64 rows quick / every size up to 128 and 200, 256, 500, 1000 thorough)", "the threefry stream (contracts of jax.random.* as in C08/C09)"],
     assumptions=["jax.random.choice/split/uniform replaced by their contracts", "valid state: every batch index is the constructor sentinel or a multiple of its batch size inside its store"],
 )
 INT32_MAX = 2 ** 31 - 1
@@ -25,6 +25,13 @@ def configs(tier):
                     out.append(dict(d=d, cart=cart, bt=bt, bx=bx, bb=bb, n=n, state=state, x64=False))
     for (n1, d1, n2, d2) in ((1, 1, 1, 1), (2, 1, 3, 2), (3, 2, 2, 1), (3, 1, 3, 3)):
         out.append(dict(mcp=True, n1=n1, d1=d1, n2=n2, d2=d2, x64=False))
+    # the product routine itself at larger (realistic) batch sizes: the row <-> (i, j) index arithmetic is the same code for every size but
+    # its values are not (rounding, clamping): all sizes of the second operand up to the bound, three rows in the first
+    big = (5, 7, 10, 13, 32, 41, 47, 50, 61, 64) if tier == "quick" else tuple(range(4, 129))
+    for n2 in big:
+        out.append(dict(mcp=True, n1=3, d1=1, n2=n2, d2=1, x64=False))
+    if tier == "thorough":
+        for n2 in (200, 256, 500, 1000): out.append(dict(mcp=True, n1=2, d1=1, n2=n2, d2=2, x64=False))
     return out
 
 
